@@ -565,7 +565,8 @@ pub fn estimate(file: &[u8]) -> Estimate {
         next: usize,
     }
     let load = |off: u64, len: u64, est: &mut Estimate| -> Option<Vec<LEntry>> {
-        let end = off.checked_add(len)?;
+        // `take(len)` with an absurd length simply reads to the end of the stream
+        let end = off.saturating_add(len);
         let flen = file.len() as u64;
         // the library reads through take(len): a section reaching past EOF is read as far as it goes
         let a = off.min(flen) as usize;
